@@ -2,6 +2,7 @@
 package c13
 
 import (
+	"errors"
 	"bytes"
 	"context"
 	"fmt"
@@ -37,7 +38,8 @@ type scenario struct {
 	Suffix []slog.Level // calls issued after all faults are switched off
 	// ErrKind: what a failing Write returns: 0 a plain injected error, 1 an error wrapping os.ErrClosed, 2 io.ErrClosedPipe,
 	// 3 io.ErrShortWrite, 4 syscall.EPIPE, 5 io.EOF, 6 context.DeadlineExceeded (a destination that is down reports
-	// whatever its transport reports; none of them may make the failure permanent)
+	// whatever its transport reports; none of them may make the failure permanent), 7 an error whose text differs for
+	// every destination and attempt
 	ErrKind int
 	// Depth: 0 the logger is a root; 1 / 2: it is a child / grandchild of a root that has recording writers of its own
 	// (and is at level Always): nothing may ever arrive there
@@ -55,7 +57,9 @@ type scenario struct {
 }
 
 func failure(kind int) error {
-	switch kind % 7 {
+	switch kind % 8 {
+	case 7:
+		return errors.New("a different error text for every failing Write")
 	case 1:
 		return fmt.Errorf("write /var/log/app.log: %w", os.ErrClosed)
 	case 2:
@@ -198,10 +202,15 @@ func run(t vlib.TB, test string, sc scenario) {
 		if !fail {
 			return len(p), nil
 		}
-		if j < len(sc.Part) && sc.Part[j] {
-			return len(p) / 2, failure(sc.ErrKind)
+		err := failure(sc.ErrKind)
+		if sc.ErrKind%8 == 7 {
+			// several destinations failing on one record each complain in their own words: still ONE diagnostic
+			err = fmt.Errorf("destination w%d: quota exceeded after %d bytes (attempt %d)", w, len(p)*(w+1), j)
 		}
-		return 0, failure(sc.ErrKind)
+		if j < len(sc.Part) && sc.Part[j] {
+			return len(p) / 2, err
+		}
+		return 0, err
 	}
 
 	desc := func() string {
@@ -484,7 +493,7 @@ func genScenario(t *rapid.T) scenario {
 		}
 	}
 	sc.Suffix = rapid.SliceOfN(rapid.SampledFrom(vlib.Builtins), 1, 6).Draw(t, "suffix")
-	sc.ErrKind = rapid.SampledFrom([]int{0, 0, 0, 1, 2, 3, 4, 5, 6}).Draw(t, "errorKind")
+	sc.ErrKind = rapid.SampledFrom([]int{0, 0, 0, 1, 2, 3, 4, 5, 6, 7, 7}).Draw(t, "errorKind")
 	sc.Depth = rapid.SampledFrom([]int{0, 0, 1, 2}).Draw(t, "depth")
 	sc.Wrapped = rapid.IntRange(0, 3).Draw(t, "wrappedByNewLogWriter") == 0
 	sc.Via = rapid.SampledFrom([]int{0, 0, 0, 1, 2}).Draw(t, "issuedVia")
